@@ -146,10 +146,18 @@ func probe(kind string, opcode int, bcast bool, nm uint16, preRegisterR bool, in
 	return o, nil
 }
 
-func traceOf(absent, present obs) string {
+// traceOf infers the handler that ran from what the probes left behind. A refresh is judged on the name
+// the table holds (answered positively, name still there); for a name the table does not hold the refresh
+// handler may refuse and leave it absent, or (opcodes 8 and 9 only) answer positively and leave the name
+// registered, as WINS and Samba do - on the present name the registration handler is still told apart from
+// it by what it answers to the owner registering again.
+func traceOf(opcode int, absent, present obs) string {
+	refreshed := present.replied && present.rcode == 0 && present.rBefore && present.rAfter
 	switch {
 	case absent.answersForQ || present.answersForQ:
 		return "query"
+	case (opcode == 8 || opcode == 9) && refreshed && !absent.rBefore && absent.rAfter && absent.replied && absent.rcode == 0:
+		return "refresh"
 	case !absent.rBefore && absent.rAfter:
 		return "registration"
 	case present.rBefore && !present.rAfter:
@@ -193,7 +201,7 @@ func checkOpcode(c opCase) []vf.Finding {
 				positive = append(positive, fmt.Sprintf("%s beforehand, in the %s section", [2]string{"absent", "present"}[k], map[bool]string{false: "answer", true: "additional"}[inAddl]))
 			}
 		}
-		traces = append(traces, traceOf(absent, present))
+		traces = append(traces, traceOf(c.Opcode, absent, present))
 	}
 	got := "none"
 	for _, t := range traces {
@@ -310,6 +318,9 @@ func pipeline(cl *client, slots []*slot, cuts func(k int) []int, sent map[uint16
 			break
 		}
 		p, ok := parseResp(b)
+		if ok && cl.isWack(p) {
+			continue // a WACK under the id of one of this client's requests may precede the response
+		}
 		got[p.ID]++
 		sl := byID[p.ID]
 		if !ok || got[p.ID] > sent[p.ID] {
@@ -702,12 +713,22 @@ func runLLMNRServer(c llmnrCase) []vf.Finding {
 			for try := 0; try < 3 && m == nil; try++ {
 				sock.WriteToUDP(wire, to)
 				sock.SetReadDeadline(time.Now().Add(500 * time.Millisecond))
-				buf := make([]byte, 1024)
-				n, _, err := sock.ReadFromUDP(buf)
-				if err != nil {
-					continue
+				for m == nil {
+					buf := make([]byte, 1024)
+					n, from, err := sock.ReadFromUDP(buf)
+					if err != nil {
+						break
+					}
+					fromServer := false
+					for _, in := range insts {
+						fromServer = fromServer || from.Port == in.to.Port && from.IP.Equal(in.to.IP)
+					}
+					if !fromServer {
+						continue // not from a server of this case (a stray datagram to a reused port)
+					}
+					m, _ = llmnr.DecodeMessage(buf[:n])
+					break
 				}
-				m, _ = llmnr.DecodeMessage(buf[:n])
 			}
 			mu.Lock()
 			defer mu.Unlock()
@@ -779,124 +800,58 @@ func TestLLMNRServerIsolation(t *testing.T) {
 }
 
 // ---- LLMNR client: each response goes to the query with the matching id ---------------------------------------
+//
+// Both client sub-checks drive the client through Client.Query only; nothing is written into the client's
+// fields. Query registers its id in Client.Queries, sends the query to the LLMNR multicast group and waits. The
+// harness learns the ids of the outstanding queries from the keys of that map (whatever integer type they are
+// stored as, whatever the values are) and answers from a loopback socket. Call k asks for qName(k), so the
+// harness knows every question that can be outstanding without knowing which id goes with which question where
+// the calls start concurrently: a response "for an id" is sent as one datagram per candidate name, each
+// repeating that name as its question and answering it with an address made from the id. A client that hands
+// over the first response with the matching id returns one of them, a client that also verifies the question
+// returns the one that repeats its own.
 
-type clientCase struct {
-	Waiting []uint16 `json:"waiting_ids"`
-	Sent    []uint16 `json:"sent_ids"` // in order; may contain duplicates and ids nobody waits for
+func qName(k int) string { return fmt.Sprintf("query-%02d.test", k) }
+
+func isCandidate(name string, k int) bool {
+	name = strings.TrimSuffix(name, ".")
+	for i := 0; i < k; i++ {
+		if strings.EqualFold(name, qName(i)) {
+			return true
+		}
+	}
+	return false
 }
 
-func checkLLMNRClient(c clientCase) []vf.Finding {
-	warmUp("llmnr-client")
-	base := libGoroutines()
-	fs := runLLMNRClient(c)
-	if left := leaked(base, func() { runLLMNRClient(c) }); left != nil {
-		fs = append(fs, vf.F("llmnr.Client", "goroutines-leaked-after-close", "%v", left))
-	}
-	return fs
-}
-
-// runLLMNRClient is the case without the goroutine accounting around it.
-func runLLMNRClient(c clientCase) []vf.Finding {
-	cl, err := llmnr.NewClient()
-	if err != nil {
-		return []vf.Finding{vf.F("harness", "cannot-create-llmnr-client", "%v", err)}
-	}
-	chans := map[uint16]chan *llmnr.Message{}
-	for _, id := range c.Waiting {
-		ch := make(chan *llmnr.Message, 1)
-		chans[id] = ch
-		cl.Queries.Store(id, ch)
-	}
-	port := cl.Conn.LocalAddr().(*net.UDPAddr).Port
-	peer, err := net.DialUDP("udp4", nil, &net.UDPAddr{IP: net.IPv4(127, 0, 0, 1), Port: port})
-	if err != nil {
-		cl.Close()
-		return []vf.Finding{vf.F("harness", "cannot-dial", "%v", err)}
-	}
-	expect := map[uint16]bool{}
-	for _, id := range c.Sent {
+// respondAll writes, for the given id, one response per candidate question qName(0..k-1), starting with candidate
+// first (mod k). A client may keep one response per query at a time and drop what arrives while that one has not
+// been looked at: a response sent behind another one for the same id may be lost on it, the first one of a round
+// is not. Whoever repeats rounds rotates first, so that every candidate comes first in turn.
+func respondAll(peer *net.UDPConn, id uint16, k int, first int) {
+	for j := 0; j < k; j++ {
+		i := (first + j) % k
 		m := llmnr.NewMessage()
 		m.ID = id
 		m.SetResponse()
-		m.AddAnswerClassINTypeA(fmt.Sprintf("id-%05d.test", id), ipN(int(id)).String())
-		wire, _ := m.Encode()
-		peer.Write(wire)
-		if _, w := chans[id]; w {
-			expect[id] = true
+		m.AddQuestion(qName(i), llmnr.TypeA, llmnr.ClassIN)
+		m.AddAnswerClassINTypeA(qName(i), ipN(int(id)).String())
+		if wire, err := m.Encode(); err == nil {
+			peer.Write(wire)
 		}
 	}
-	// a query-type datagram and garbage must be ignored
-	q := llmnr.NewMessage()
-	if len(c.Waiting) > 0 {
-		q.ID = c.Waiting[0]
-	}
-	q.SetQuery()
-	q.AddQuestion("noise.test", llmnr.TypeA, llmnr.ClassIN)
-	if wire, err := q.Encode(); err == nil && !expect[q.ID] {
-		peer.Write(wire)
-	}
-	peer.Write([]byte{1, 2, 3})
-	peer.Close()
-	var fs []vf.Finding
-	deadline := time.Now().Add(time.Second)
-	for id, ch := range chans {
-		if !expect[id] {
-			continue
-		}
-		select {
-		case m := <-ch:
-			if m.ID != id || len(m.Answers) != 1 || m.Answers[0].Name != fmt.Sprintf("id-%05d.test", id) {
-				fs = append(fs, vf.F("llmnr.Client", "response-delivered-to-wrong-query", "query %#x received id %#x answers %+v", id, m.ID, m.Answers))
-			}
-		case <-time.After(time.Until(deadline)):
-			fs = append(fs, vf.F("llmnr.Client", "matching-response-not-delivered", "query %#x (sent ids %v)", id, c.Sent))
-		}
-	}
-	time.Sleep(20 * time.Millisecond)
-	for id, ch := range chans {
-		if expect[id] {
-			continue
-		}
-		select {
-		case m := <-ch:
-			fs = append(fs, vf.F("llmnr.Client", "response-delivered-to-wrong-query", "query %#x (no response sent for it) received id %#x", id, m.ID))
-		default:
-		}
-	}
-	ok, took := within(stopBudget, func() { cl.Close() })
-	if !ok {
-		fs = append(fs, vf.F("llmnr.Client.Close", "close-does-not-return", "after %v", took))
-	}
-	return fs
 }
 
-func TestLLMNRClientMatch(t *testing.T) {
-	s := vf.Begin(t, P, "llmnr-client-match")
-	vf.Rapid(s, vf.N(60, 800), func(t *rapid.T) clientCase {
-		ids := rapid.SliceOfNDistinct(rapid.Uint16Range(1, 400), 1, 12, rapid.ID[uint16]).Draw(t, "waiting")
-		var sent []uint16
-		for i, n := 0, rapid.IntRange(1, 20).Draw(t, "nsent"); i < n; i++ {
-			if rapid.IntRange(0, 3).Draw(t, "foreign") == 0 {
-				sent = append(sent, rapid.Uint16Range(401, 800).Draw(t, "foreignId"))
-			} else {
-				sent = append(sent, ids[rapid.IntRange(0, len(ids)-1).Draw(t, "pick")])
-			}
+// answerFor: m is a response made by respondAll for the given id.
+func answerFor(m *llmnr.Message, id uint16, k int) bool {
+	if m.ID != id || !m.IsResponse() || len(m.Answers) != 1 || !isCandidate(m.Answers[0].Name, k) || !bytes.Equal(net.IP(m.Answers[0].RData).To4(), ipN(int(id))) {
+		return false
+	}
+	for _, q := range m.Questions {
+		if !isCandidate(q.Name, k) {
+			return false
 		}
-		return clientCase{ids, sent}
-	}, checkLLMNRClient, func(c clientCase) bool { return len(c.Waiting) >= 2 && len(c.Sent) >= 2 })
-}
-
-// ---- LLMNR client: Query itself -------------------------------------------------------------------------------------
-//
-// Client.Query registers its id in Client.Queries, sends the query to the LLMNR multicast group and waits. The
-// responder of this check learns the ids of the outstanding queries from the keys of that map (whatever integer
-// type they are stored as) and answers each of them, again and again until every Query has returned, from a
-// loopback socket. Every Query must return a response, carrying an id that was outstanding and the answer made
-// for that id, and no two queries the same one.
-
-type queryCase struct {
-	K       int      `json:"concurrent_queries"`
-	Foreign []uint16 `json:"foreign_ids"` // responses nobody waits for, sent along (skipped while outstanding)
+	}
+	return true
 }
 
 func keyID(k any) (uint16, bool) {
@@ -908,6 +863,231 @@ func keyID(k any) (uint16, bool) {
 		return uint16(v.Int()), true
 	}
 	return 0, false
+}
+
+// outstanding returns the ids of the queries the client is waiting for.
+func outstanding(cl *llmnr.Client) map[uint16]bool {
+	pending := map[uint16]bool{}
+	cl.Queries.Range(func(k, _ any) bool {
+		if id, ok := keyID(k); ok {
+			pending[id] = true
+		}
+		return true
+	})
+	return pending
+}
+
+// sendStep is one step of the peer's script: a response for the id of call Call (repeated steps for one call:
+// duplicates), or (Call < 0) a response with an id nobody waits for.
+type sendStep struct {
+	Call    int    `json:"call"`
+	Foreign uint16 `json:"foreign_id,omitempty"`
+}
+
+type clientCase struct {
+	K    int        `json:"outstanding_queries"` // started one after the other, all outstanding while the script runs
+	Sent []sendStep `json:"sent"`                // in order
+}
+
+var matchConclusive bool
+
+func checkLLMNRClient(c clientCase) []vf.Finding {
+	warmUp("llmnr-client")
+	base := libGoroutines()
+	fs := runLLMNRClient(c)
+	conclusive := matchConclusive
+	if left := leaked(base, func() { runLLMNRClient(c) }); left != nil {
+		fs = append(fs, vf.F("llmnr.Client", "goroutines-leaked-after-close", "%v", left))
+	}
+	matchConclusive = conclusive // of the case itself, not of its repetition
+	return fs
+}
+
+// runLLMNRClient is the case without the goroutine accounting around it. The Query calls are started one after
+// the other, each once the id of the one before has appeared among the outstanding ids: the harness then knows
+// which id belongs to which call. Nothing is answered before all of them are outstanding. Then the peer sends
+// a query-type datagram under the id of call 0 and garbage (both must be ignored), and the script: responses
+// for outstanding ids (some several times, some never) and for foreign ids. A call a response was sent for must
+// return the response made for its own id; a call none was sent for must not return a message.
+func runLLMNRClient(c clientCase) []vf.Finding {
+	matchConclusive = false
+	cl, err := llmnr.NewClient()
+	if err != nil {
+		return []vf.Finding{vf.F("harness", "cannot-create-llmnr-client", "%v", err)}
+	}
+	port := cl.Conn.LocalAddr().(*net.UDPAddr).Port
+	peer, err := net.DialUDP("udp4", nil, &net.UDPAddr{IP: net.IPv4(127, 0, 0, 1), Port: port})
+	if err != nil {
+		cl.Close()
+		return []vf.Finding{vf.F("harness", "cannot-dial", "%v", err)}
+	}
+	type outcome struct {
+		m   *llmnr.Message
+		err error
+	}
+	outs := make([]outcome, c.K)
+	ids := make([]uint16, c.K)
+	done := make([]chan struct{}, c.K)
+	cancels := make([]context.CancelFunc, c.K)
+	known := map[uint16]bool{}
+	conclusive := true
+	started := 0
+	for k := 0; k < c.K && conclusive; k++ {
+		ctx, cancel := context.WithTimeout(context.Background(), 10*time.Second)
+		cancels[k], done[k] = cancel, make(chan struct{})
+		started++
+		go func(k int) {
+			defer close(done[k])
+			m, err := cl.Query(ctx, qName(k), llmnr.TypeA)
+			outs[k] = outcome{m, err}
+		}(k)
+		// the id of call k: the one that is outstanding now and was not before. None appears where the call
+		// fails at once (no multicast route on this host) or draws an id that is outstanding already.
+		found := false
+		for t0 := time.Now(); !found && time.Since(t0) < time.Second; {
+			for id := range outstanding(cl) {
+				if !known[id] {
+					known[id], ids[k], found = true, id, true
+				}
+			}
+			if !found {
+				select {
+				case <-done[k]:
+					t0 = time.Time{}
+				case <-time.After(200 * time.Microsecond):
+				}
+			}
+		}
+		conclusive = found
+	}
+	finish := func(fs []vf.Finding) []vf.Finding {
+		for k := 0; k < started; k++ {
+			cancels[k]()
+			<-done[k]
+		}
+		peer.Close()
+		ok, took := within(stopBudget, func() { cl.Close() })
+		if !ok {
+			fs = append(fs, vf.F("llmnr.Client.Close", "close-does-not-return", "after %v", took))
+		}
+		return fs
+	}
+	if !conclusive {
+		return finish(nil)
+	}
+	matchConclusive = true
+	// a query-type datagram under an outstanding id, and garbage, must be ignored
+	q := llmnr.NewMessage()
+	q.ID = ids[0]
+	q.SetQuery()
+	q.AddQuestion("noise.test", llmnr.TypeA, llmnr.ClassIN)
+	if wire, err := q.Encode(); err == nil {
+		peer.Write(wire)
+	}
+	peer.Write([]byte{1, 2, 3})
+	expect := make([]bool, c.K)
+	var sentIDs []uint16
+	for _, st := range c.Sent {
+		id := st.Foreign
+		if st.Call >= 0 {
+			id = ids[st.Call%c.K]
+			expect[st.Call%c.K] = true
+		} else if known[id] {
+			continue
+		}
+		sentIDs = append(sentIDs, id)
+		respondAll(peer, id, c.K, len(sentIDs))
+	}
+	var fs []vf.Finding
+	for k := 0; k < c.K; k++ {
+		if !expect[k] {
+			continue
+		}
+		// The call returns with the response, or with the client's own timeout. While it has not, the responses
+		// for its id are sent again every 2 ms, each candidate question first in turn (see respondAll): more
+		// duplicates, for this id only.
+		limit := time.After(5 * time.Second)
+		for round, waiting := 0, true; waiting; round++ {
+			select {
+			case <-done[k]:
+				waiting = false
+			case <-limit:
+				cancels[k]()
+				<-done[k]
+				waiting = false
+			case <-time.After(2 * time.Millisecond):
+				respondAll(peer, ids[k], c.K, round)
+			}
+		}
+		switch o := outs[k]; {
+		case o.err != nil || o.m == nil:
+			fs = append(fs, vf.F("llmnr.Client", "matching-response-not-delivered", "query %d (id %#x) returned %v; ids of the responses sent, in order: %#x; outstanding ids by call: %#x", k, ids[k], o.err, sentIDs, ids))
+		case !answerFor(o.m, ids[k], c.K):
+			fs = append(fs, vf.F("llmnr.Client", "response-delivered-to-wrong-query", "query %d (id %#x) received id %#x response %v questions %+v answers %+v", k, ids[k], o.m.ID, o.m.IsResponse(), o.m.Questions, o.m.Answers))
+		}
+	}
+	time.Sleep(20 * time.Millisecond)
+	for k := 0; k < c.K; k++ {
+		if expect[k] {
+			continue
+		}
+		cancels[k]()
+		<-done[k]
+		if o := outs[k]; o.err == nil && o.m != nil {
+			fs = append(fs, vf.F("llmnr.Client", "response-delivered-to-wrong-query", "query %d (id %#x, no response sent for it) received id %#x response %v answers %+v", k, ids[k], o.m.ID, o.m.IsResponse(), o.m.Answers))
+		}
+	}
+	return finish(fs)
+}
+
+// skipWithoutMulticast: Client.Query sends to the LLMNR multicast group; where the host has no multicast route
+// every call fails before anything can be judged. That is a property of the machine, not of the library and not
+// of the generator: the sub-check reports itself as skipped instead of as a dead generator.
+func skipWithoutMulticast(t *testing.T, conclusive int) {
+	if conclusive == 0 && !t.Failed() {
+		t.Skip("no LLMNR multicast route on this host: Client.Query could not be exercised")
+	}
+}
+
+const inconclusiveClass = "inconclusive (no multicast route, or two queries drew the same id)"
+
+func TestLLMNRClientMatch(t *testing.T) {
+	s := vf.Begin(t, P, "llmnr-client-match")
+	conclusive := 0
+	vf.Rapid(s, vf.N(60, 800), func(t *rapid.T) clientCase {
+		c := clientCase{K: rapid.IntRange(1, 12).Draw(t, "queries")}
+		for i, n := 0, rapid.IntRange(1, 20).Draw(t, "nsent"); i < n; i++ {
+			if rapid.IntRange(0, 3).Draw(t, "foreign") == 0 {
+				c.Sent = append(c.Sent, sendStep{Call: -1, Foreign: rapid.Uint16().Draw(t, "foreignId")})
+			} else {
+				c.Sent = append(c.Sent, sendStep{Call: rapid.IntRange(0, c.K-1).Draw(t, "pick")})
+			}
+		}
+		return c
+	}, func(c clientCase) []vf.Finding {
+		fs := checkLLMNRClient(c)
+		if os.Getenv("VERIF_FORCE_NO_MULTICAST") != "" { // self-test of the skip path below
+			matchConclusive, fs = false, nil
+		}
+		if !matchConclusive {
+			s.Class(inconclusiveClass)
+		} else {
+			conclusive++
+		}
+		return fs
+	}, func(c clientCase) bool { return matchConclusive && c.K >= 2 && len(c.Sent) >= 2 })
+	skipWithoutMulticast(t, conclusive)
+}
+
+// ---- LLMNR client: concurrent Query calls ---------------------------------------------------------------------------
+//
+// The calls start at the same time; the responder answers each outstanding id (see above: once per candidate
+// question), again and again until every Query has returned. Every Query must return a response, carrying an id
+// that was outstanding and the answer made for that id, and no two queries the same one.
+
+type queryCase struct {
+	K       int      `json:"concurrent_queries"`
+	Foreign []uint16 `json:"foreign_ids"` // responses nobody waits for, sent along (skipped while outstanding)
 }
 
 var queryConclusive bool
@@ -949,38 +1129,23 @@ func runLLMNRQuery(c queryCase) []vf.Finding {
 			defer wg.Done()
 			ctx, cancel := context.WithTimeout(context.Background(), 10*time.Second)
 			defer cancel()
-			m, err := cl.Query(ctx, fmt.Sprintf("query-%02d.test", k), llmnr.TypeA)
+			m, err := cl.Query(ctx, qName(k), llmnr.TypeA)
 			outs[k] = outcome{m, err}
 		}(k)
 	}
 	allDone := make(chan struct{})
 	go func() { wg.Wait(); close(allDone) }()
-	seen := map[uint16]int{} // id -> number of responses sent for it
-	respond := func(id uint16) {
-		m := llmnr.NewMessage()
-		m.ID = id
-		m.SetResponse()
-		m.AddAnswerClassINTypeA(fmt.Sprintf("id-%05d.test", id), ipN(int(id)).String())
-		if wire, err := m.Encode(); err == nil {
-			peer.Write(wire)
-		}
-	}
+	seen := map[uint16]int{} // id -> number of rounds of responses sent for it
 	for done := false; !done; {
-		pending := map[uint16]bool{}
-		cl.Queries.Range(func(k, _ any) bool {
-			if id, ok := keyID(k); ok {
-				pending[id] = true
-			}
-			return true
-		})
+		pending := outstanding(cl)
 		for _, id := range c.Foreign {
 			if !pending[id] && seen[id] == 0 {
-				respond(id)
+				respondAll(peer, id, c.K, 0)
 			}
 		}
 		for id := range pending {
+			respondAll(peer, id, c.K, seen[id])
 			seen[id]++
-			respond(id)
 		}
 		select {
 		case <-allDone:
@@ -1001,11 +1166,11 @@ func runLLMNRQuery(c queryCase) []vf.Finding {
 		byID := map[uint16]int{}
 		for k, o := range outs {
 			if o.err != nil || o.m == nil {
-				fs = append(fs, vf.F("llmnr.Client.Query", "matching-response-not-delivered", "query %d returned %v although every outstanding id was answered repeatedly (ids and number of responses sent: %v)", k, o.err, seen))
+				fs = append(fs, vf.F("llmnr.Client.Query", "matching-response-not-delivered", "query %d returned %v although every outstanding id was answered repeatedly, once per question asked (ids and number of rounds of responses sent: %v)", k, o.err, seen))
 				continue
 			}
-			if seen[o.m.ID] == 0 || !o.m.IsResponse() || len(o.m.Answers) != 1 || o.m.Answers[0].Name != fmt.Sprintf("id-%05d.test", o.m.ID) {
-				fs = append(fs, vf.F("llmnr.Client.Query", "response-delivered-to-wrong-query", "query %d returned id %#x answers %+v; outstanding ids were %v", k, o.m.ID, o.m.Answers, seen))
+			if seen[o.m.ID] == 0 || !answerFor(o.m, o.m.ID, c.K) {
+				fs = append(fs, vf.F("llmnr.Client.Query", "response-delivered-to-wrong-query", "query %d returned id %#x questions %+v answers %+v; outstanding ids were %v", k, o.m.ID, o.m.Questions, o.m.Answers, seen))
 				continue
 			}
 			if k2, dup := byID[o.m.ID]; dup {
@@ -1023,6 +1188,7 @@ func runLLMNRQuery(c queryCase) []vf.Finding {
 
 func TestLLMNRClientQuery(t *testing.T) {
 	s := vf.Begin(t, P, "llmnr-client-query")
+	conclusive := 0
 	vf.Rapid(s, vf.N(40, 500), func(t *rapid.T) queryCase {
 		return queryCase{K: rapid.IntRange(1, 6).Draw(t, "queries"), Foreign: rapid.SliceOfN(rapid.Uint16(), 0, 4).Draw(t, "foreign")}
 	}, func(c queryCase) []vf.Finding {
@@ -1031,21 +1197,14 @@ func TestLLMNRClientQuery(t *testing.T) {
 			queryConclusive, fs = false, nil
 		}
 		if !queryConclusive {
-			s.Class("inconclusive (no multicast route, or two queries drew the same id)")
+			s.Class(inconclusiveClass)
 		} else {
-			conclusiveQueries++
+			conclusive++
 		}
 		return fs
 	}, func(c queryCase) bool { return queryConclusive })
-	if conclusiveQueries == 0 && !t.Failed() {
-		// Client.Query sends to the LLMNR multicast group; where the host has no multicast route every call
-		// fails before anything can be judged. That is a property of the machine, not of the library and not
-		// of the generator: the sub-check reports itself as skipped instead of as a dead generator.
-		t.Skip("no LLMNR multicast route on this host: Client.Query could not be exercised")
-	}
+	skipWithoutMulticast(t, conclusive)
 }
-
-var conclusiveQueries int
 
 // ---- stopping twice, stopping what was never started ----------------------------------------------------------------
 
